@@ -1,29 +1,36 @@
 from props import cfg
 
 CFG = cfg('C19', refine=['Refine_keyring'], extract='Ex_C19', driver='c19',
-          rule='universe of 8 Ed25519 keys (shared names / comments / e-mails, names with blanks, public + private halves of two keys, '
-               '0-2 subkeys, two keys with equal creation time); after EVERY step the real keyring (alias layers in dict order, key table, '
-               'pub/priv lists, `in` and `with key()` for ~110 identifiers incl. blank variants and strangers, fingerprints() for the 9 '
+          rule='universe of 10 Ed25519 keys (shared names / comments / e-mails, names with blanks, names differing by blanks only ("John Smith" / '
+               '"JohnSmith", "x y" / "xy"), names and comments that are hexadecimal digits with and without blanks of id-like (8, 16) and other (12) '
+               'lengths, public + private halves of two keys, 0-2 subkeys, two keys with equal creation time); after EVERY step the real keyring (alias layers in dict order, key table, '
+               'pub/priv lists, `in` and `with key()` for ~135 identifiers incl. grouped fingerprints / key ids, blank variants of names, non-ASCII digits, strangers, fingerprints() for the 9 '
                'filter combinations, len) is compared with the extracted model, and the property text is evaluated directly on the '
                'implementation against an independent book-keeping of what is loaded. Histories: every toggle history (load if absent '
-               'else unload) to depth 5 over 5 keys + depth 3 over 8 keys (quick) / depth 6 over 5, depth 7 over 4, depth 5 over 6, depth 4 '
-               'over 8 (thorough), load form drawn from {object, binary, armored text, armored file, binary file} x {single, list, tuple, varargs}, '
-               'unload by object or through key(fingerprint with blanks / key id); random walks of 60 steps that also re-load loaded '
+               'else unload) to depth 5 over 5 keys + depth 3 over 10 keys (quick) / depth 6 over 5, depth 7 over 4, depth 5 over 6, depth 4 '
+               'over 10 (thorough), load form drawn from {object, binary, armored text, armored file, binary file, bytearray, armored bytearray} x '
+               '{single, list, tuple, varargs} (a bytearray must be left untouched), unload by object or through key(fingerprint / key id / short id '
+               'written in groups, key id, name); random walks of 60 steps that also re-load loaded '
                'keys (serialised forms create second objects), load lists of 2-3 keys, unload absent keys and load / unload lone '
-               'subkeys; selection by signature / signed message / encrypted message every 15 steps. distinct = distinct (suite, history)',
+               'subkeys; selection by signature / signed message / encrypted message / unsigned message every 15 steps and on keyrings that hold none of the '
+               'issuers (KeyError and nothing else, like the model); PGPKeyring._unspaced against the model and an independent reading of the rule on '
+               '~1.7 k (quick) / ~20 k (thorough) generated identifiers (lengths around 8 / 16 / 40, mixed case, blanks, non-hex and non-ASCII characters, '
+               'final newline); the old rule (blanks ignored in every identifier) is run as a model and must differ. distinct = distinct (suite, history)',
           trusted=['Spec/Keyring_spec.v (the property text as set semantics on key objects)',
                    'the order produced by sorted(list(set(..)), key=(created, is_public)) is a parameter of the model: theorems assume only that it '
                    'permutes; the correspondence run uses (created, is_public) and asks the implementation for the order of ties'],
           assumptions=['Python dict / deque / set / id() semantics, PGPKey.from_blob / from_file and the flattening in PGPKeyring.load are reached '
                        'only through the correspondence run',
-                       'source text of _add_alias, _sort_alias, _add_key, unload, __contains__, _get_key, key, fingerprints, load is pinned '
+                       'source text of _add_alias, _sort_alias, _add_key, unload, __contains__, _unspaced, _get_key, key, fingerprints, load is pinned '
                        '(sha256); an edit is reported as a broken obligation'])
 
 TEXT = ('Rocq theorems (Props/C19.v, closed under the global context): the layered alias index refines the set of (identifier, key object) pairs of '
         'the loaded keys -- step lemmas for _sort_alias, _add_alias, unload, _add_key with subkeys, an invariant preserved by every step, and the '
         'lifting by induction over an arbitrary history (abs_reachable), for every permutation-valued sort; corollaries: membership iff a loaded key '
-        'carries the identifier (blank-insensitive), key() sound and total, identifiers of unloaded keys select nothing, fingerprints()/len exact, '
-        'the deque is never empty; the pre-repair _add_alias is refuted by a concrete history. Tie: exact state-by-state correspondence of the '
+        'is selected by the identifier (carried as written, or -- only when its space-free form is 8 / 16 / 40 hexadecimal digits -- carried in that form: '
+        'selects_literal, selects_grouped, selects_unspaced), key() sound and total, key(message) sound and KeyError exactly when no issuer selects a loaded '
+        'key, identifiers of unloaded keys select nothing, fingerprints()/len exact, the deque is never empty; the pre-repair _add_alias and the pre-repair '
+        'membership rule (blanks ignored in names: "John Smith" / "JohnSmith") are refuted by concrete histories. Tie: exact state-by-state correspondence of the '
         'extracted model with the real PGPKeyring over exhaustive and random histories + the property text run directly on the implementation; '
         'pinned source text of the modelled methods.',
         'DESIGN.md 5 C19',
